@@ -92,9 +92,43 @@ SITES = {
     'or_else': r'\.\s*or_else\s*\(',
     'unwrap_or_else': r'\.\s*unwrap_or_else\s*\(',
     'map_err_const': r'\.\s*map_err\s*\(',
+    'map_err_fmt': r'\.\s*map_err\s*\(',
     'ok_or_else': r'\.\s*ok_or_else\s*\(',
     'opt_map_ctor': r'\.\s*map\s*\(\s*[A-Z]\w*(?:::\w+)+\s*\)',
 }
+
+
+def bind_call(text, callee, lemma, deref):
+    """`CALLEE(ARGS)` ==> `{ let __t4_c = CALLEE(ARGS); proof { LEMMA(<*>CALLEE, (ARGS), __t4_c); } __t4_c }` for every call
+    site of the closure-typed variable CALLEE: adds a let-binding and a proof block only."""
+    n = 0
+    pos = 0
+    while True:
+        m = rs.mask(text)
+        hits = [h for h in rs.find_code(text, m, r'(?<![\w.:])' + re.escape(callee) + r'\(', pos, len(text))]
+        if not hits:
+            break
+        s, e, mm = hits[0]
+        close = rs.match_close(text, m, e - 1)
+        args = text[e:close]
+        nargs = 1
+        d = 0
+        for i_, c_ in enumerate(args):
+            if m[e + i_] != rs.CODE:
+                continue
+            if c_ in '([{':
+                d += 1
+            elif c_ in ')]}':
+                d -= 1
+            elif c_ == ',' and d == 0 and args[i_ + 1:].strip():
+                nargs += 1
+        proj = ', '.join('__t4_a.%d' % i_ for i_ in range(nargs))
+        new = '{ let __t4_a = (%s); let __t4_c = %s(%s); proof { %s(%s%s, __t4_a, __t4_c); } __t4_c }' % (
+            args, callee, proj, lemma, '*' if deref else '', callee)
+        text = text[:s] + new + text[close + 1:]
+        pos = s + len(new)
+        n += 1
+    return text, n
 
 
 def count_sites(text, kind):
@@ -158,6 +192,12 @@ def apply(text, args):
         if pat:
             raise T4Error('ok_or_else closure takes no parameter')
         new = '(match %s { Some(__t4_v) => Ok(__t4_v), None => Err(%s) })' % (recv.strip(), body)
+    elif kind == 'map_err_fmt':
+        # the error value is a formatted message: its text is irrelevant to every contract, so the
+        # message construction is replaced by an opaque String
+        if not re.match(r'(?:\s|\x01T?\d+\x01)*format!', body):
+            raise T4Error('map_err_fmt: closure body is not format!(..)')
+        new = '(match %s { Ok(__t4_v) => Ok(__t4_v), Err(_) => Err(vp_auth::opaque_error_message()) })' % (recv.strip(),)
     elif kind == 'map_err_const':
         new = '(match %s { Ok(__t4_v) => Ok(__t4_v), Err(%s) => Err(%s) })' % (recv.strip(), pat, body)
     text = text[:rstart] + new + text[close + 1:]
